@@ -1,4 +1,5 @@
 import GotranxProofs.Validate
+import GotranxProofs.Spec
 /-!
 # C01 — the generated NumPy `rhs` computes the derivatives the model text defines
 
@@ -26,6 +27,18 @@ theorem rhs_progress {α} (N : Num α) (m : Model) (L : Layout) (inp : Inputs α
     (hin : ∀ u ∈ unpacks p, (inp u.2.1 u.2.2).isSome) :
     (exec N inp (initRhs t) p).isSome :=
   checkRhs_progress N m L inp t p hchk hin
+
+/-- **The reference meaning is well defined** on acyclic models: solutions are unique … -/
+theorem meaning_unique {α} (N : Num α) (m : Model) (L : Layout) (inp : Inputs α) (t : α)
+    (rank : Name → Nat) (hr : Ranked m rank) (ρ ρ' : Env α)
+    (h1 : Solution N m L inp t ρ) (h2 : Solution N m L inp t ρ')
+    (hclosed : ∀ a ∈ m.assigns, ∀ y ∈ fv a.2, (m.rhsOf y).isSome ∨ y ∈ timeNames ∨ y ∈ L.state ∨ y ∈ L.param ∨ y ∈ L.missing) :
+    ∀ x, (m.rhsOf x).isSome → ρ x = ρ' x := solution_unique' N m L inp t rank hr ρ ρ' h1 h2 hclosed
+
+/-- … and exist: bounded unfolding satisfies every equation once the fuel exceeds the ranks -/
+theorem meaning_exists {α} (N : Num α) (m : Model) (base : Env α) (rank : Name → Nat) (hr : Ranked m rank)
+    (hfun : ∀ x e, (x, e) ∈ m.assigns → m.rhsOf x = some e) (n : Nat) (hn : ∀ a ∈ m.assigns, rank a.1 < n) :
+    Equations N m (denote N m base (n + 1)) := denote_equations N m base rank hr hfun n hn
 
 /-! Reference meaning of the conditional constructs, readable as equations. -/
 
